@@ -229,7 +229,10 @@ func parseStrace(logPath, dir string) ([]fileOp, error) {
 	sc := bufio.NewScanner(f)
 	sc.Buffer(make([]byte, 1<<20), 1<<28)
 	pending := map[string]string{}
-	type fdKey struct{ path string; fd int }
+	type fdKey struct {
+		path string
+		fd   int
+	}
 	offsets := map[fdKey]int64{}
 	sizes := map[string]int64{}
 	var ops []fileOp
